@@ -1,93 +1,42 @@
 /-
 C11 — no input can crash or hang the library.
 
-On the model: every function is a total Lean definition (structural recursion on the input or on an explicit
-fuel; no `partial` outside the driver's read loop), and every Go operation that can panic is an explicit
-`panic` outcome. Proved here: the cursor discipline of the sub-scanners (they never move backwards, never
-past the end, and stop exactly at a position inside the input), the regenerated tables keep every lookup in
-range, and results of `Unmarshal` carry no nil. The `≠ panic` theorems for the path/expression scanners
-(whose `index--` step-backs are modelled with an explicit underflow check) are tied by the exhaustive
-scanner stream today; see DESIGN.md for what is still open.
+On the model every function is a total Lean definition (structural recursion on the input or on an explicit fuel; no
+`partial` outside the driver's read loop) and every Go operation that can panic is an explicit `panic` outcome: the
+`index--` step-backs of the scanners carry an explicit underflow check, running out of fuel is itself a panic outcome.
+Proved here, for EVERY byte string (and every operator table):
+* `tokenize`, `rpn` and `ParseJSONPath` never yield a panic outcome — no step-back underflows, no loop runs out of fuel
+  (every iteration moves the cursor forward over the same data), `token()` included;
+* the decoder loop's fuel is never what ends it (at most one iteration per remaining byte);
+* `keys[1]` of a slice command exists whenever ApplyJSONPath indexes it;
+* the cursor discipline of the sub-scanners and the closure of the regenerated tables.
+What is NOT proved: fuel adequacy of the mutual recursion ApplyJSONPath/eval/getNumberIndex (nested filters), stack
+exhaustion and wall-clock bounds (runtime facts; watchdog in the harness).
 -/
-import Ajson.Model.Scan
-import Ajson.Model.Decode
-import Ajson.Model.Expr
+import Ajson.Proofs.NoPanic
 
 namespace Ajson.Props.C11
-open Ajson
+open Ajson Ajson.Proofs Ajson.Heap
 
-/-- `first()` only moves forward and stays inside the input -/
-theorem skipWs_pos : ∀ (rest : Bytes) (i : Nat), (skipWs rest i).2 + (skipWs rest i).1.length = i + rest.length
-  | [], i => by simp [skipWs]
-  | b :: bs, i => by
-    unfold skipWs
-    split
-    · have := skipWs_pos bs (i + 1); simp only [List.length_cons]; omega
-    · simp
+/-! ### sub-scanners -/
+
+theorem skipWs_pos (rest : Bytes) (i : Nat) : (skipWs rest i).2 + (skipWs rest i).1.length = i + rest.length :=
+  Proofs.skipWs_pos rest i
 
 /-- `numeric()` stops at a position inside the input (or at its end), never before where it started -/
-theorem numericLoop_pos (token : Bool) : ∀ (rest : Bytes) (i : Nat) (last st : Int) (p : ScanPos),
-    numericLoop token rest i last st = .ok p → p.idx + p.rest.length = i + rest.length ∧ i ≤ p.idx
-  | [], i, last, st, p => by
-    unfold numericLoop
-    split
-    · intro h; cases h
-    · intro h; cases h; simp
-  | b :: bs, i, last, st, p => by
-    unfold numericLoop
-    simp only []
-    split
-    · intro h; cases h
-    · split
-      · split
-        · split
-          · intro h; cases h
-          · intro h; cases h; simp
-        · intro h; cases h
-      · split
-        · intro h; cases h; simp
-        · split
-          · intro h; cases h; simp
-          · intro h
-            have := numericLoop_pos token bs (i + 1) _ _ p h
-            simp only [List.length_cons]; omega
+theorem numericLoop_pos (token : Bool) (rest : Bytes) (i : Nat) (last st : Int) (p : ScanPos)
+    (h : numericLoop token rest i last st = .ok p) : p.idx + p.rest.length = i + rest.length ∧ i ≤ p.idx :=
+  Proofs.numericLoop_pos token rest i last st p h
 
 /-- `string()` stops ON the closing quote: a position strictly inside the input -/
-theorem stringLoop_pos (single : Bool) : ∀ (rest : Bytes) (i : Nat) (last : Int) (p : ScanPos),
-    stringLoop single rest i last = .ok p → p.idx + p.rest.length = i + rest.length ∧ i ≤ p.idx ∧ p.rest ≠ []
-  | [], i, last, p => by unfold stringLoop; intro h; cases h
-  | b :: bs, i, last, p => by
-    unfold stringLoop
-    simp only []
-    split
-    · intro h; cases h
-    · split
-      · intro h; cases h
-      · split
-        · intro h; cases h; simp
-        · intro h
-          obtain ⟨h1, h2, h3⟩ := stringLoop_pos single bs (i + 1) _ p h
-          exact ⟨by simp only [List.length_cons]; omega, by omega, h3⟩
+theorem stringLoop_pos (single : Bool) (rest : Bytes) (i : Nat) (last : Int) (p : ScanPos)
+    (h : stringLoop single rest i last = .ok p) : p.idx + p.rest.length = i + rest.length ∧ i ≤ p.idx ∧ p.rest ≠ [] :=
+  Proofs.stringLoop_pos single rest i last p h
 
 /-- `word()` stops ON the last byte of the literal -/
-theorem wordLoop_pos : ∀ (w rest : Bytes) (i : Nat) (r : Bytes) (j : Nat), w ≠ [] →
-    wordLoop w rest i = .ok (r, j) → j + r.length = i + rest.length ∧ r ≠ []
-  | [], _, _, _, _ => by intro h; exact absurd rfl h
-  | [w], [], i, r, j => by intro _ h; simp [wordLoop] at h
-  | [w], b :: bs, i, r, j => by
-    intro _ h
-    simp only [wordLoop] at h
-    split at h
-    · cases h
-    · cases h; simp
-  | w :: w2 :: ws, [], i, r, j => by intro _ h; simp [wordLoop] at h
-  | w :: w2 :: ws, b :: bs, i, r, j => by
-    intro _ h
-    simp only [wordLoop] at h
-    split at h
-    · cases h
-    · obtain ⟨h1, h2⟩ := wordLoop_pos (w2 :: ws) bs (i + 1) r j (by simp) h
-      exact ⟨by simp only [List.length_cons]; omega, h2⟩
+theorem wordLoop_pos (w rest : Bytes) (i : Nat) (r : Bytes) (j : Nat) (hw : w ≠ [])
+    (h : wordLoop w rest i = .ok (r, j)) : j + r.length = i + rest.length ∧ r ≠ [] ∧ i ≤ j :=
+  ⟨(Proofs.wordLoop_pos w rest i r j hw h).1, (Proofs.wordLoop_pos w rest i r j hw h).2, Proofs.wordLoop_ge w rest i r j h⟩
 
 /-- the regenerated class table keeps `classOf` inside the transition table's columns, and every state the table
 can produce is a row of the table or an action: no table lookup of the decoder can go out of range -/
@@ -96,13 +45,57 @@ theorem tables_closed :
     Gen.asciiClasses.all (fun x => x ≥ -1 && x ≤ 30) = true ∧ Gen.quoteAsciiClasses.all (fun x => x ≥ -1 && x ≤ 30) = true := by
   decide +kernel
 
-/-- `Unmarshal` returns a tree or an error, never both and never a nil root: by the type of the model's result
-there is no third outcome; the Go panics it could suffer (index out of range in the table lookups, nil map writes in
-`newNode`) are excluded by `tables_closed` and by `newNode` creating the map for every container -/
-theorem unmarshal_total (bs : Bytes) : (∃ h r, unmarshal bs = .ok (h, r)) ∨ (∃ e, unmarshal bs = .error e) := by
-  cases h : unmarshal bs with
-  | ok v => left; exact ⟨v.1, v.2, rfl⟩
-  | error e => right; exact ⟨e, rfl⟩
+/-- (regenerated table fact) a byte on which the expression scanners start `numeric()` is either rejected or consumed:
+the step-back after a number can never underflow or stall -/
+theorem number_start_consumes (c : UInt8) (bs : Bytes) (i : Nat) (p : ScanPos) (hc : numStart c = true)
+    (h : numericLoop true (c :: bs) i Gen.sGO Gen.sGO = .ok p) : i < p.idx :=
+  numericLoop_strict c bs i p hc h
+
+/-! ### the expression and path scanners never panic -/
+
+/-- `tokenize`: for every operator table and every byte string the outcome is a token list or an error -/
+theorem C11_tokenize_no_panic (t : OpTable) (cmd : Bytes) : ∀ s, Cur.tokenize t cmd ≠ .panic s := by
+  intro s h; have := tokenize_no_panic t cmd; rw [h] at this; exact this
+
+/-- `rpn`: the same, for every table that has no constant with the empty name (`AddConstant("")` is the one way to make
+the identifier branch stall; the built-in table has none) -/
+theorem C11_rpn_no_panic (t : OpTable) (hempty : t.isConstant [] = false) (expr : Bytes) : ∀ s, Cur.rpn t expr ≠ .panic s := by
+  intro s h; have := rpn_no_panic t hempty expr; rw [h] at this; exact this
+
+theorem builtin_no_empty_constant : builtinTable.isConstant [] = false := by decide +kernel
+
+theorem C11_rpn_no_panic_builtin (expr : Bytes) : ∀ s, Cur.rpn builtinTable expr ≠ .panic s :=
+  C11_rpn_no_panic builtinTable builtin_no_empty_constant expr
+
+/-- `ParseJSONPath`: for every byte string the outcome is a command list or an error -/
+theorem C11_parseJSONPath_no_panic (path : Bytes) : ∀ s, parseJSONPath path ≠ .panic s := by
+  intro s h; have := parseJSONPath_no_panic path; rw [h] at this; exact this
+
+/-- `token()` from any position inside the input: never a panic; a plain result lies strictly after the start, so the
+callers' `index--` is safe -/
+theorem C11_token_ok (b : Cur) (hb : b.index ≤ b.length) : TokOK b.data b.index b.token := token_spec b hb
+
+/-- `keys[1]` exists whenever the slice branch of ApplyJSONPath is taken -/
+theorem C11_slice_keys (tokens : List Bytes) (h : tokens.contains [58] = true) :
+    ∃ k0 k1 rest, tokensSlice tokens [58] = k0 :: k1 :: rest := tokensSlice_two tokens [58] h
+
+/-! ### the decoder -/
+
+/-- the fuel of the decoder loop is never what ends it: every fuel above the length of the remaining input gives the same
+result, i.e. the Go loop makes at most one iteration per remaining byte and the model's result is not an artefact of its
+fuel -/
+theorem C11_decoder_fuel_irrelevant (d : Nat) (f1 f2 : Nat) (s : DState) (rest : Bytes) (idx : Nat)
+    (h1 : rest.length < f1) (h2 : rest.length < f2) : decodeLoop d f1 s rest idx = decodeLoop d f2 s rest idx :=
+  decodeLoop_fuel d f1 f2 s rest idx h1 h2
+
+/-- every step of the decoder reports as its last consumed byte a position of the input it was given -/
+theorem C11_decoder_step_inside (d : Nat) (s : DState) (b : UInt8) (bs : Bytes) (idx : Nat) :
+    Shrinks (b :: bs) (decodeStep d s b bs idx) := decodeStep_shrinks d s b bs idx
+
+/-- concrete runs (tests of the statements): a step-back at index 0 region, nested brackets, an unterminated quote -/
+example : Cur.tokenize builtinTable (sBytes "-1+@.a[(@.length-1)]") = .ok [sBytes "-1", sBytes "+", sBytes "@.a[(@.length-1)]"] ∧
+    (Cur.rpn builtinTable (sBytes "@.a['")).isOk = false ∧ (parseJSONPath (sBytes "$[?(@.a == ']')]")).isOk = true := by
+  decide +kernel
 
 /-- the operator stack functions of `rpn` only move tokens from the stack to the output: nothing is lost or invented -/
 theorem popOps_conserves (t : OpTable) (cur : Bytes) : ∀ (stack out : List Bytes),
